@@ -132,3 +132,31 @@ func (t *VerifTopic) DrainResponses() [][]uint16 {
 
 // PendingSignal is the number of wake-up signals waiting for the Synchronize loop (0 or 1).
 func (t *VerifTopic) PendingSignal() int { return len(t.tpv.receivedMsg) }
+
+// ---- the queries a member waits for before it completes (first query per peer)
+
+// PendingQueries is the number of queries waiting in the channel.
+func (t *VerifTopic) PendingQueries() int { return len(t.tpv.queries) }
+
+// Queried returns the keys of queriesReceived.
+func (t *VerifTopic) Queried() []uint16 {
+	var res []uint16
+	t.tpv.queriesReceived.Range(func(k, _ interface{}) bool {
+		res = append(res, k.(uint16))
+		return true
+	})
+	return res
+}
+
+// DrainQueries takes every waiting query out of the channel.
+func (t *VerifTopic) DrainQueries() [][]uint16 {
+	var res [][]uint16
+	for {
+		select {
+		case q := <-t.tpv.queries:
+			res = append(res, append([]uint16{}, q...))
+		default:
+			return res
+		}
+	}
+}
